@@ -96,6 +96,16 @@ type Record struct {
 }
 
 func mapping(ann, form, path, verb string, r *rand.Rand) string {
+	if ann == "RequestMapping" && verb == "" {
+		// a mapping that names no verb
+		switch form {
+		case "short":
+			return "@RequestMapping(\"" + path + "\")"
+		case "value":
+			return "@RequestMapping(value = \"" + path + "\")"
+		}
+		return "@RequestMapping"
+	}
 	if ann == "RequestMapping" {
 		m := "method = RequestMethod." + verb
 		switch form {
@@ -421,6 +431,10 @@ func genFile(r *rand.Rand, idx int) File {
 				m.Ann = "RequestMapping"
 				m.Verb = verbs[r.Intn(4)][1]
 				m.Form = []string{"value", "none"}[r.Intn(2)]
+				if r.Intn(3) == 0 { // names no verb
+					m.Verb = ""
+					m.Form = []string{"short", "value"}[r.Intn(2)]
+				}
 			} else {
 				v := verbs[r.Intn(4)]
 				m.Ann, m.Verb = v[0], v[1]
